@@ -56,10 +56,12 @@ def run(ctx):
     hx = ctx.go_build("c14")
     q = ctx.quick()
     sizes = {"expr": 700 if q else 40000, "file": 500 if q else 30000,
-             "lit": 100 if q else 2000, "layout": 400 if q else 6000, "near": 25 if q else 250}
-    coq_cap = {"expr": 70 if q else 2500, "file": 60 if q else 2000, "near": 160 if q else 5000,
-               "layout": 120 if q else 3000, "int": 250 if q else 5000, "float": 120 if q else 2000}
-    tokcap = 45 if q else 160
+             "lit": 100 if q else 2000, "layout": 400 if q else 6000, "near": 25 if q else 250,
+             "unparen": 400 if q else 6000}
+    coq_cap = {"expr": 30 if q else 2500, "file": 25 if q else 2000, "near": 70 if q else 4000,
+               "layout": 50 if q else 3000, "int": 120 if q else 5000, "float": 50 if q else 2000,
+               "unparen": 90 if q else 4000}
+    tokcap = 40 if q else 160
     obs = {}
     dist = {}
     for mode, n in sizes.items():
@@ -97,7 +99,10 @@ def run(ctx):
             add("(%s %s %s)" % ("CExpr" if mode == "expr" else "CFile", c["tokens"], c["want"]), c)
     # ---- near misses
     k = 0
-    for c in obs["near"]:
+    ncap = {"near": coq_cap["near"], "unparen": coq_cap["unparen"]}
+    nk = {"near": 0, "unparen": 0}
+    for c in obs["near"] + obs["unparen"]:
+        fam = "unparen" if c["mut"].startswith("unparen") else "near"
         if not c["ok"]:
             go_bad += 1
             ctx.finding("near:%s" % why_class(c.get("why")), "near-miss text: %s" % c.get("why"),
@@ -105,9 +110,9 @@ def run(ctx):
             continue
         if c.get("resolve") == "panic":
             ctx.finding("near:resolver-panic", "resolver panics on an accepted near-miss: %s" % c.get("resolve_err"), {"src": c["src"]})
-        if not c.get("coq", True) or not c["tokens"] or k >= coq_cap["near"]:
+        if not c.get("coq", True) or not c["tokens"] or nk[fam] >= ncap[fam]:
             continue   # scanner error: nothing for the parser model
-        k += 1
+        nk[fam] += 1
         got = "(Some %s)" % c["got"] if c["parse"] == "ok" else "None"
         add("(%s %s %s)" % ("CNearE" if c["mode"] == "expr" else "CNearF", c["tokens"], got), c)
     # ---- literals
@@ -175,6 +180,10 @@ def run(ctx):
         if c["kind"] == "lit":
             ctx.finding("lit:" + c["key"], "int literal %r: scanner gives %s, positional value per the lexical grammar is %s" % (
                 c["src"][:80], c["value"] if c["accepted"] else "an error (" + c.get("err", "") + ")", c["want"]), c)
+        elif c["kind"] == "near":
+            ctx.finding("near:accepted-ill-formed:%s" % re.sub(r"@\d+", "", c["mut"]),
+                        "the parser accepts a text outside the grammar and gives it a tree that does not render to it (a required parenthesis / separator is missing): %r -> %s" % (c["src"][:120], c["got"][:300]),
+                        {"src": c["src"], "base_src": c.get("base_src"), "mut": c["mut"], "got": c["got"]})
         else:
             ctx.finding("%s:spec:%s" % (c["kind"], why_class(c.get("why"))), "Print.v rendering / tree comparison fails on a generated %s" % c["kind"],
                         {"src": c["src"], "want": c.get("want"), "got": c.get("got")})
